@@ -277,6 +277,11 @@ func corpus() []fixed {
 		// 130 samples of one series only in the WAL: the read-only head (120 samples per chunk) cuts and
 		// m-maps a chunk while replaying - into the sandbox
 		{Name: "replay-cuts-chunk", H: history{N: 1, Window: 0, Unclean: true, Ops: []hop{manyTx(0, 130, 10), {Kind: "reopen"}, tx(0, 5000)}}},
+		// a head tombstone that ends below the read-only head's MinTime but not below the cut-off, over an
+		// out-of-order sample that is still in a head chunk file (needs C01's finding
+		// restart-reloads-compacted-ooo-chunk): the read-only open's Init drops the tombstone
+		{Name: "dropped-tombstone", H: history{N: 1, Window: 100000, Ops: []hop{tx(0, 100), tx(0, 1700), tx(0, 1800), tx(0, 1750), {Kind: "compact"},
+			tx(0, 2600), {Kind: "delete", S: []int{0}, A: 1720, B: 2100}, tx(0, 3400), {Kind: "compact"}}}},
 		// empty directory
 		{Name: "empty", H: history{N: 1, Window: 0}},
 	}
@@ -566,15 +571,6 @@ type headInfo struct {
 	IO, OOO                map[int][]int64
 	Tomb                   [][3]int64 // series, mint, maxt
 	Err                    string
-}
-
-func covered(ivs [][2]int64, t int64) bool {
-	for _, iv := range ivs {
-		if iv[0] <= t && t <= iv[1] {
-			return true
-		}
-	}
-	return false
 }
 
 // oracle runs the real Head.Init(mv) on a private copy of the directory, with the head options
@@ -1264,7 +1260,7 @@ func main() {
 	for _, c := range corpus() {
 		run(c.Name, c.H, c.Q, gen.Fork(f.Seed, id))
 	}
-	n := f.Count(5, 180)
+	n := f.Count(5, 150)
 	for i := 0; i < n; i++ {
 		g := gen.Fork(f.Seed, id)
 		run("random", genHistory(g), nil, g)
